@@ -442,7 +442,8 @@ def share_failing_body(ctx, rule, floor=2):
     sub = type(ctx)(ctx.prop, ctx.tier, ctx.facts, ctx.cfg)
     r4(sub)
     for o in sub.obligations:
-        if "transaction-body-fails" not in o["key"] and "store-dropped" not in o["key"]:
+        from .engine import failed_closed
+        if "transaction-body-fails" not in o["key"] and "store-dropped" not in o["key"] and not failed_closed(o):
             continue
         o = dict(o)
         o["key"] = o["key"].replace("C06.R4", rule)
